@@ -32,6 +32,8 @@ type c04EngReq struct {
 	Arg    int       `json:"arg,omitempty"`
 	Shape  string    `json:"shape,omitempty"`
 	G      int       `json:"g,omitempty"` // addressed group
+	Abort  bool      `json:"abort,omitempty"` // the body reader fails after At bytes
+	At     int       `json:"at,omitempty"`
 }
 
 // c04EngGroup is the authentication configuration of one featured route group.
@@ -123,6 +125,9 @@ func c04EngInterp(t *testing.T, c c04EngCase) (v kit.Verdict) {
 			}
 			ng.addRoutes(fr)
 		}
+		if decs, err := c04Decryptors(); err == nil {
+			c04Scrub(decs) // see c04Scrub: cases must not depend on earlier cases
+		}
 		rt := router.NewRouter()
 		if err := ng.bindRoutes(rt); err != nil {
 			fail = "bindRoutes: " + err.Error()
@@ -172,6 +177,12 @@ func c04EngInterp(t *testing.T, c c04EngCase) (v kit.Verdict) {
 				}
 			}
 			classes["framing:"+wire.Framing] = true
+			if rq.Abort {
+				wire.Abort, wire.AbortAt = true, rq.At
+				if wire.Framing == "nobody" {
+					wire.Framing = ""
+				}
+			}
 			req := c04HTTPRequest(wire)
 
 			// JWT gate
@@ -228,6 +239,14 @@ func c04EngInterp(t *testing.T, c c04EngCase) (v kit.Verdict) {
 			desc := fmt.Sprintf("%s (%s; jwt reference %s, signature reference %s)", what, wire.Method, jwtExp, sigExp)
 
 			switch {
+			case rq.Abort && jwtExp != c04Reject:
+				// body read error: status unspecified; the handler must not run when a strict
+				// signature gate was handed fewer bytes than were signed
+				classes["aborted-body"] = true
+				if g.Sig && g.Strict && c04Verified(wire.Method) && rq.Signed && rq.At < len(wire.Body) && seen.ran != 0 {
+					fail = fmt.Sprintf("%s: only %d of %d signed body bytes arrived, yet the handler ran (status %d)", desc, rq.At, len(wire.Body), code)
+					return
+				}
 			case jwtExp == c04Unspec:
 				classes["unspec-jwt"] = true
 			case jwtExp == c04Reject:
@@ -383,6 +402,13 @@ func c04EngGen(rt *rapid.T) c04EngCase {
 			}
 			tolS := g.TolS
 			rq.Off = rapid.SampledFrom([]int64{0, 0, 0, 0, tolS, -tolS, tolS + 1, -tolS - 1, 86400 * 3}).Draw(rt, "off")
+		}
+		if rapid.IntRange(0, 7).Draw(rt, "abort?") == 0 {
+			rq.Abort = true
+			rq.At = rapid.SampledFrom([]int{0, 1, 3, 8, 17, 100000}).Draw(rt, "at")
+			if rq.Req.Body == "" {
+				rq.Req.Body = "0123456789abcdef0123456789abcdef"
+			}
 		}
 		c.Reqs = append(c.Reqs, rq)
 	}
